@@ -56,6 +56,8 @@ def project_probes(ctx, project):
                 f["lines"][0]["segs"][0].startswith("﻿"):
             ctx.probe("bom_file")
     ctx.probe("syntax_" + project["syntax"])
+    if project.get("twin_pair"):
+        ctx.probe("same_context_pair_in_one_file")
     if project.get("clock_slots"):
         ctx.probe("calendar_pattern_beside_semver")
     if project.get("cfg_glob"):
@@ -84,7 +86,8 @@ def do_show(ctx, w, clock, text, extra_argv=(), state=None):
 
 class Life:
     def __init__(self, focus, quick, thorough, mode="plain", allow_mixed=True, sv_rate=0.1, vcs="maybe", family=None,
-                 nmax=6, dry_rate=0.2, pep_any=False, force_pep=False, zero_bid=False, grep_pep=False):
+                 nmax=6, dry_rate=0.2, pep_any=False, force_pep=False, zero_bid=False, grep_pep=False, twin_pair=False):
+        self.twin_pair = twin_pair
         self.focus = focus
         self.name = "LIFE/" + focus
         self._quick, self._thorough = quick, thorough
@@ -109,7 +112,7 @@ class Life:
         mode = self.mode if self.mode != "mix" else ("bytes" if rng.random() < 0.3 else "plain")
         project = layouts.gen_project(rng, mode=mode, allow_mixed=self.allow_mixed, vcs=vcs, family=self.family,
                                       pep_any=self.pep_any, force_pep=self.force_pep, zero_bid=self.zero_bid,
-                                      legacy=(self.family == "legacy"))
+                                      legacy=(self.family == "legacy"), twin_pair=self.twin_pair)
         if project["vcs"] is not None:
             # quoting of odd paths at the VCS seam is C12's subject; keep this campaign's failures version-caused
             if any(ch in f["path"] for f in project["files"] for ch in " '\"") or \
@@ -242,6 +245,16 @@ class Life:
             base_facts["syntax"] = project["syntax"]
             base_facts["nondot_sep"] = not layouts.pep_friendly(pattern)
             base_facts["bld_zero"] = "bid" in state and int(state["bid"]) == 0
+            if project.get("twin_pair") and res.exit_code != 0 and not res.changed and pep440.is_pep440(text) and \
+                    any(rp.accepts(tree, cand) for cand in {pep440.canonical(text), w.pep_cache.get(text) or text,
+                                                             pep440.canonical(text).replace(".dev", "dev").replace(".post", "post")}) \
+                    and any("greedy" in m for _l, _n, m in res.logs):
+                # the text in the {pep440_version} line is itself a version of the pattern, so the {version} pattern claims both
+                # lines of the pair, the second pattern is shadowed and bumpver refuses to go on (by design; the statement makes
+                # no claim for this state)
+                ctx.count("twin_pair_refused")
+                ctx.probe("twin_pair_refused")
+                continue
             if op.get("dry") and res.changed:
                 ctx.violation("C13", "dry_changed_files", base_facts, "`update --dry` changed files (argv %s)" % argv)
                 ctx.violation("C01", "dry_changed_files", base_facts, "`update --dry` changed files (argv %s)" % argv)
